@@ -38,6 +38,7 @@ class ConstructionFormsSpec(FunctionSpec):
         for k in ("Scalar", "Array", "FixedArray"):
             out.append((k, "unit-forms"))
             out.append((k, "category-only"))
+        out.append(("Scalar", "category-and-unit"))
         return out
 
     def setup(self, I, variant):
@@ -87,6 +88,11 @@ class ConstructionFormsSpec(FunctionSpec):
                         out.append(STuple([SStr(name), SStr("raise:" + e.exc.o.clsname())]))
                 return STuple(out)
 
+        elif what == "category-and-unit":
+            # Scalar(category, unit=u): the category's default amount expressed in u
+            def run(I):
+                return build(I, c, SNone, u)
+
         else:
             def run(I):
                 ci = I.call(I.getattr(db, "GetCategoryInfo"), [c])
@@ -130,6 +136,40 @@ class ConstructionFormsSpec(FunctionSpec):
                     conj.append(to_z3b(I.equal(fa.get("_dimension"), fb.get("_dimension"))))
             return And(conj)
 
+        if what == "category-and-unit":
+            from .unit_database import getinfo_cases
+            from .obtain import obtain_simple_cases
+            from pyvc.engine import app
+
+            reg = S(st["C_dom"], c.name)
+            du, dv = S(st["C_du"], c.name), S(st["C_dv"], c.name)
+            qt = S(st["C_qt"], c.name)
+            out = [rai("unknown-category", z3.Not(reg), "InvalidQuantityTypeError", props=("C05",))]
+            # the default amount re-expressed: own unit keeps it, otherwise conv(default unit -> u)
+            same = du == u.name
+            for n_, g_, k_, x_ in getinfo_cases(R, st, qt, u.name, True, True):
+                g = z3.And(reg, z3.Not(same), g_)
+                if k_ == "raise":
+                    out.append(rai("unit:" + n_, g, x_, props=("C05",)))
+                elif n_ in ("direct", "via-category"):
+                    def chk(I, res, x_=x_):
+                        if not (isinstance(res, SRef) and isinstance(res.o, HObj) and res.o.cls.name == "Scalar"):
+                            return F
+                        v_ = res.o.fields.get("_value")
+                        q_ = res.o.fields.get("_quantity")
+                        exp = app(S(st["U_fb"], x_), app(S(st["U_tb"], du), dv))
+                        return z3.And(v_.real() == exp, to_z3b(I.equal(q_.o.fields["_category"], c)), q_.o.fields["_unit"].name == x_) if isinstance(v_, SNum) else F
+
+                    out.append(ret("default-amount-in-the-unit:" + n_, g, props=("C02", "C19"), check=chk))
+                else:
+                    out.append(unspecified("unit:" + n_, g))
+
+            def chk_same(I, res):
+                v_ = res.o.fields.get("_value") if isinstance(res, SRef) else None
+                return v_.real() == dv if isinstance(v_, SNum) else F
+
+            out.append(ret("default-unit: the default value itself", z3.And(reg, same), props=("C02", "C19"), check=chk_same))
+            return out
         if what == "category-only":
             small = (ctx["dim"].t < 2) if kname == "FixedArray" else F
             reg = S(st["C_dom"], c.name)
